@@ -30,7 +30,8 @@ inductive PyExpr where
   | const (w : List Char)
   /-- an unsigned decimal literal -/
   | num (text : List Char)
-  | neg (e : PyExpr)
+  /-- `-` followed by an unsigned decimal literal -/
+  | negNum (text : List Char)
   /-- `repr(s)` -/
   | strLit (cs : List Char)
   | call (f : List Char) (kws : List (List Char × PyExpr))
@@ -58,7 +59,7 @@ def render (pr : Char → Bool) : PyExpr → List Char
   | .name n => n
   | .const w => w
   | .num t => t
-  | .neg e => '-' :: render pr e
+  | .negNum t => '-' :: t
   | .strLit cs => pyReprL pr cs
   | .call f kws => f ++ '(' :: (renderKws pr true kws ++ [')'])
   | .list xs => '[' :: (renderL pr true xs ++ [']'])
@@ -87,7 +88,7 @@ def toks : PyExpr → List Tok
   | .name n => [.name n]
   | .const w => [.kw w]
   | .num _ => [.num]
-  | .neg e => .op '-' :: toks e
+  | .negNum _ => [.op '-', .num]
   | .strLit _ => [.str]
   | .call f kws => .name f :: .op '(' :: (toksKws true kws ++ [.op ')'])
   | .list xs => .op '[' :: (toksL true xs ++ [.op ']'])
@@ -129,7 +130,7 @@ def wf : PyExpr → Bool
   | .name n => asciiIdent n
   | .const w => constKw w && keywords.contains w
   | .num t => isNumText t
-  | .neg e => wf e
+  | .negNum t => isNumText t
   | .strLit _ => true
   | .call f kws => asciiIdent f && nodupL (kws.map (·.1)) && wfKws kws
   | .list xs => wfL xs
@@ -156,12 +157,12 @@ end
 def natText (n : Nat) : List Char := Nat.toDigits 10 n
 
 def intExpr (i : Int) : PyExpr :=
-  if i < 0 then .neg (.num (natText i.natAbs)) else .num (natText i.toNat)
+  if i < 0 then .negNum (natText i.natAbs) else .num (natText i.toNat)
 
 /-- `repr(float)` supplied by the oracle, split into sign and unsigned literal -/
 def floatExpr (text : List Char) : PyExpr :=
   match text with
-  | '-' :: r => .neg (.num r)
+  | '-' :: r => .negNum r
   | t => .num t
 
 /-- a schema number (`minimum`, `maximum`): an int when integral, else a float -/
